@@ -798,11 +798,11 @@ class Bridge(wiring.Component):
         submodule_names = {"mux"}
         for reg, reg_name, _ in self.bus.memory_map.resources():
             submodule_name = "__".join(str(part) for part in reg_name)
-            if submodule_name not in submodule_names:
-                submodule_names.add(submodule_name)
-                m.submodules[submodule_name] = reg
-            else: # distinct register names may be joined to the same submodule name
-                m.submodules += reg
+            while submodule_name in submodule_names:
+                # distinct register names may be joined to the same submodule name
+                submodule_name += "_"
+            submodule_names.add(submodule_name)
+            m.submodules[submodule_name] = reg
 
         connect(m, flipped(self.bus), self._mux.bus)
 
